@@ -97,17 +97,16 @@ pub struct Entry {
 
 impl NameCfg {
     pub fn fixed(&self) -> String {
-        let mut parts: Vec<&str> = Vec::new();
-        if !self.basename.is_empty() {
-            parts.push(&self.basename);
+        // a separator goes in front of a part only if something precedes it (an empty
+        // discriminant behind an empty basename therefore leaves no trace at all)
+        let mut name = self.basename.clone();
+        for part in [&self.discr, &self.start_ts].into_iter().flatten() {
+            if !name.is_empty() {
+                name.push('_');
+            }
+            name.push_str(part);
         }
-        if let Some(d) = &self.discr {
-            parts.push(d);
-        }
-        if let Some(t) = &self.start_ts {
-            parts.push(t);
-        }
-        parts.join("_")
+        name
     }
 
     /// documented composition: [basename][_discr][_starttime][_infix][.suffix]
